@@ -225,3 +225,11 @@ Theorem C06_pool_as_completed_refuted :
     pool_as_completed c1 ms <> pool_as_completed c2 ms.
 Proof. exact pool_as_completed_depends. Qed.
 Print Assumptions C06_pool_as_completed_refuted.
+
+(* sorted(S, key=k) is NOT covered by C06_seed_independent_fixed: with a key that identifies two distinct elements the
+   result follows the set's iteration order (the inventory classifies sorted(set, key=...) as ORDERED) *)
+Theorem C06_sorted_with_key_refuted :
+  exists (k : str -> str) (l : list str) (perm1 perm2 : perm_oracle),
+    Permutation (perm1 l) l /\ Permutation (perm2 l) l /\ sort_by k (perm1 l) <> sort_by k (perm2 l).
+Proof. exact sorted_with_key_depends. Qed.
+Print Assumptions C06_sorted_with_key_refuted.
